@@ -28,4 +28,4 @@ LEVEL_NOTE = ("Trusted: Lean kernel; axioms propext/Classical.choice/Quot.sound;
               "determines uniquely (deliveries, sent/failed/refused reports, fatality, in-flight marks, trading state).")
 
 # further models / theorems / correspondences for code around this property (see DESIGN.md §13.6)
-SUBCHECKS = ["C03R"]
+SUBCHECKS = ["C03R", "C03N"]
